@@ -4,6 +4,7 @@ CONSTANTS
   MaxDepth = 1
   StmtDepth = 0
   Effects = TRUE
+  Focus = "all"
   Quirks = FALSE
   EnvCap = 8
   RetTypes <- MC_RetIntBool
